@@ -16,6 +16,7 @@ import (
 	"fmt"
 	"strconv"
 	"strings"
+	"time"
 
 	"verif/harness/hx"
 )
@@ -148,6 +149,8 @@ func (s *simS) step(a int) bool {
 		case 'c':
 			s.clear()
 			s.ip++
+		case 'x': // rejected Push: nothing happens
+			s.ip++
 		}
 	case 1:
 		if len(s.writable) >= 1 {
@@ -273,38 +276,180 @@ func c12Exec(input string) string {
 	return morassRunWork(parseMWork(f[1:]))
 }
 
+// c12Enumerate emits every schedule of the workload (up to quiescence) when they fit into capPer,
+// an evenly spread sample when there are more, and - when there are so many that the
+// enumeration itself is cut off (its depth-first prefix would fix the early choices) - capPer
+// uniform random walks instead.
+func c12Enumerate(g *hx.Gen, c int, ac bool, ty string, ops []string, capPer int) {
+	const cut = 200000
+	var all [][]int
+	simEnumerate(newSim(c, ac, ops), nil, func(s []int) bool {
+		all = append(all, append([]int(nil), s...))
+		return len(all) < cut
+	})
+	if len(all) >= cut {
+		for i := 0; i < capPer && !g.Done(); i++ {
+			s := newSim(c, ac, ops)
+			var sched []int
+			for steps := 0; steps < 800 && !s.quiescent(); steps++ {
+				var en []int
+				for a := 0; a <= len(s.ws); a++ {
+					if s.clone().step(a) {
+						en = append(en, a)
+					}
+				}
+				if len(en) == 0 {
+					break
+				}
+				a := en[g.Intn(len(en))]
+				s.step(a)
+				sched = append(sched, a)
+			}
+			g.Case(c12Line(c, ac, ty, ops, sched))
+		}
+		return
+	}
+	stride := 1
+	if len(all) > capPer {
+		stride = len(all)/capPer + 1
+	}
+	off := 0
+	if stride > 1 {
+		off = g.Intn(stride)
+	}
+	for i := off; i < len(all) && !g.Done(); i += stride {
+		g.Case(c12Line(c, ac, ty, ops, all[i]))
+	}
+}
+
 func c12Gen(g *hx.Gen) {
+	// every stage gets its share of the budget in every mode (quick: ~3000 cases in 90 s;
+	// focus = quick x 2.5; thorough: ~16000 cases in 400 s), so that the multi-cycle
+	// histories and the random walks are reached in all of them
+	scale := func(q, t int) int {
+		switch {
+		case g.Tier == "thorough":
+			return t
+		case g.Focus:
+			return q * 5 / 2
+		}
+		return q
+	}
 	// the dangerous shape first: short last chunk, Finalise racing the only background writer
-	// (1) every interleaving of small workloads
+	// (1) every interleaving of small one-cycle workloads
 	type wl struct{ c, n int }
 	small := []wl{{1, 2}, {2, 3}, {1, 3}}
-	capPer := g.Scale(1200, 30000)
+	capPer := scale(560, 3000)
 	for _, w := range small {
 		ty := "i"
 		if g.Chance(0.5) {
 			ty = "s"
 		}
 		ops := c12Workload(g, w.c, w.n, ty, w.n+1, 5)
-		var all [][]int
-		simEnumerate(newSim(w.c, false, ops), nil, func(s []int) bool {
-			all = append(all, append([]int(nil), s...))
-			return len(all) < 200000
-		})
-		// all of them when they fit in the budget, otherwise an evenly spread sample
-		stride := 1
-		if len(all) > capPer {
-			stride = len(all)/capPer + 1
-		}
-		off := 0
-		if stride > 1 {
-			off = g.Intn(stride)
-		}
-		for i := off; i < len(all) && !g.Done(); i += stride {
-			g.Case(c12Line(w.c, false, ty, ops, all[i]))
-		}
+		c12Enumerate(g, w.c, false, ty, ops, capPer)
 	}
-	// (2) random walks on larger workloads, (3) probes
-	n := g.Scale(900, 20000)
+	// (1b) every interleaving (or a sample) of small multi-cycle histories: the writers of one
+	// cycle against the caller's pulls, Clear and the next cycle (what
+	// conc_history_sorted_multiset states)
+	type hist struct {
+		c  int
+		ac bool
+		cy [][3]int // pushes, pulls, clear
+	}
+	hists := []hist{
+		{2, false, [][3]int{{1, 0, 1}, {3, 4, 0}}},            // memory-only unpulled, Clear takes the nil from pool (pool stays empty: the next cycle is serialised); spill
+		{1, false, [][3]int{{2, 1, 1}, {2, 3, 0}}},            // spill, partial drain, Clear; spill, drain
+		{2, false, [][3]int{{1, 2, 1}, {3, 4, 0}}},            // memory-only drained to io.EOF (buffer back in pool), Clear; spill
+		{1, true, [][3]int{{2, 3, 0}, {2, 3, 0}}},             // closed by AutoClear at io.EOF; spill again
+		{2, false, [][3]int{{3, 4, 1}, {1, 2, 1}, {3, 1, 0}}}, // spill, memory-only, spill
+	}
+	capH := scale(210, 1000)
+	for _, h := range hists {
+		ty := "i"
+		if g.Chance(0.5) {
+			ty = "s"
+		}
+		var ops []string
+		for _, cy := range h.cy {
+			ops = c11Cycle(g, ops, h.c, ty, cy[0], cy[1], cy[2] == 1, 5)
+		}
+		c12Enumerate(g, h.c, h.ac, ty, ops, capH)
+	}
+	// (1c) a rejected Push (a value of another type) when the chunk is exactly full, then
+	// Finalise: the rejected call must not hand the chunk over.  The schedule runs the writers
+	// of the earlier chunks to completion, then probes the writer that must not exist (flag x;
+	// were it spawned it would now be held at write.register) and steps the caller through
+	// Finalise and the pulls while that writer stays parked.
+	nrej := scale(24, 120)
+	for k := 0; k < nrej && !g.Done(); k++ {
+		c := g.Pick(1, 2, 3, 4)
+		full := g.Range(1, 3)
+		ty := "i"
+		if g.Chance(0.5) {
+			ty = "s"
+		}
+		var ops []string
+		if g.Chance(0.3) { // an earlier cycle
+			ops = c11Cycle(g, ops, c, ty, g.Range(1, 2)*c+g.Intn(2), g.Intn(3), true, 8)
+		}
+		n := full * c
+		for i := 0; i < n; i++ {
+			if ty == "s" {
+				ops = append(ops, fmt.Sprintf("p%d:%d", g.Intn(9)-3, g.Intn(4)))
+			} else {
+				ops = append(ops, fmt.Sprintf("p%d", g.Intn(9)-3))
+			}
+		}
+		ops = append(ops, "x")
+		if g.Chance(0.3) {
+			ops = append(ops, "x")
+		}
+		rest := []string{"f"}
+		for i := 0; i <= n; i++ {
+			rest = append(rest, "l")
+		}
+		s := newSim(c, false, append(append([]string(nil), ops...), rest...))
+		var sched []int
+		nx := len(ops)
+		for steps := 0; steps < 600 && s.ip < nx; steps++ {
+			var en []int
+			for a := 0; a <= len(s.ws); a++ {
+				if s.clone().step(a) {
+					en = append(en, a)
+				}
+			}
+			if len(en) == 0 {
+				break
+			}
+			a := en[len(en)-1] // writers first: the earlier chunks are on disk before the rejected Push
+			if g.Chance(0.15) {
+				a = en[g.Intn(len(en))]
+			}
+			s.step(a)
+			sched = append(sched, a)
+		}
+		for s.writersAlive() && len(sched) < 700 { // let the earlier writers finish
+			moved := false
+			for a := 1; a <= len(s.ws); a++ {
+				if s.clone().step(a) {
+					s.step(a)
+					sched = append(sched, a)
+					moved = true
+					break
+				}
+			}
+			if !moved {
+				break
+			}
+		}
+		sched = append(sched, len(s.ws)+1) // the writer a rejected Push must not spawn
+		for i := 0; i < len(rest)+c+8; i++ {
+			sched = append(sched, 0)
+		}
+		g.Case(c12Line(c, false, ty, append(ops, rest...), sched))
+	}
+	// (2) random walks on larger workloads and histories of 1..4 cycles, (3) probes
+	n := scale(750, 5000)
 	for k := 0; k < n && !g.Done(); k++ {
 		c := g.Pick(1, 2, 2, 3, 4)
 		chunks := g.Range(1, 4)
@@ -319,21 +464,39 @@ func c12Gen(g *hx.Gen) {
 		}
 		ac := g.Chance(0.3)
 		var ops []string
-		cycles := g.Pick(1, 1, 1, 2)
+		cycles := g.Pick(1, 1, 1, 2, 2, 3, 4)
 		for cy := 0; cy < cycles; cy++ {
 			pulls := cnt + 1
-			if cy < cycles-1 && g.Chance(0.3) {
-				pulls = g.Intn(cnt + 1)
+			drained := true
+			if cy < cycles-1 {
+				switch g.Intn(5) {
+				case 0:
+					pulls, drained = 0, false
+				case 1:
+					pulls, drained = g.Intn(cnt+1), false
+				case 2:
+					pulls, drained = cnt, false
+				}
 			}
-			ops = c11Cycle(g, ops, c, ty, cnt, pulls, cy < cycles-1, g.Pick(3, 8, 100))
-			cnt = g.Pick(chunks*c+last, c+1, 2*c)
+			clear := cy < cycles-1
+			if clear && ac && drained && g.Chance(0.6) {
+				clear = false // closed by AutoClear
+			}
+			ops = c11Cycle(g, ops, c, ty, cnt, pulls, clear, g.Pick(3, 8, 100))
+			cnt = g.Pick(chunks*c+last, c+1, 2*c, c11Count(g, c))
+		}
+		if g.Chance(0.2) { // rejected pushes anywhere
+			for r := g.Range(1, 2); r > 0; r-- {
+				i := g.Intn(len(ops) + 1)
+				ops = append(ops[:i:i], append([]string{"x"}, ops[i:]...)...)
+			}
 		}
 		s := newSim(c, ac, ops)
 		bias := g.Pick(0, 1, 2, 3) // 0 uniform, 1 caller first, 2 writers first, 3 newest writer last
 		probe := g.Chance(0.15)
 		probeAt := g.Intn(40)
 		var sched []int
-		for steps := 0; steps < 400 && !s.quiescent(); steps++ {
+		for steps := 0; steps < 600 && !s.quiescent(); steps++ {
 			var en, blocked []int
 			for a := 0; a <= len(s.ws); a++ {
 				if s.clone().step(a) {
@@ -399,5 +562,5 @@ func c12Shrink(input string) []string {
 }
 
 func init() {
-	hx.Register(&hx.Prop{ID: "C12", Gen: c12Gen, Exec: c12Exec, Shrink: c12Shrink})
+	hx.Register(&hx.Prop{ID: "C12", Gen: c12Gen, Exec: c12Exec, Shrink: c12Shrink, Timeout: 90 * time.Second})
 }
